@@ -263,6 +263,15 @@ func (idx *HNSWIndex) Add(vector VectorNode) error {
 		idx.nextID++
 	}
 
+	// Re-adding a soft-deleted ID: purge the stale node first, otherwise the
+	// pending delete would hide (and the next Flush would drop) the new node
+	if idx.deletedNodes.Contains(id) {
+		if err := idx.flushLocked(); err != nil {
+			idx.mu.Unlock()
+			return err
+		}
+	}
+
 	// Update max level
 	if level > idx.maxLevel {
 		idx.maxLevel = level
@@ -357,6 +366,13 @@ func (idx *HNSWIndex) Flush() error {
 	idx.mu.Lock()
 	defer idx.mu.Unlock()
 
+	return idx.flushLocked()
+}
+
+// flushLocked is the body of Flush: it hard deletes all soft-deleted nodes.
+//
+// CONCURRENCY: This is an internal helper method. The caller MUST hold the write lock.
+func (idx *HNSWIndex) flushLocked() error {
 	// Quick exit if nothing to flush
 	deletedCount := int(idx.deletedNodes.GetCardinality())
 	if deletedCount == 0 {
